@@ -141,6 +141,7 @@ def main(ctx):
                       found_input=bool(bad_oracle), key='corr')
     ctx.sample({'cell': json.loads(json.dumps(list(cells[0]))), 'impl': impl[0]})
     e2e(ctx, falcon, testing, model)
+    wiring(ctx, falcon, model)
 
 
 disagreements = []
@@ -218,9 +219,39 @@ def e2e(ctx, falcon, testing, model):
     async def asink_allow(req, resp, **kw):
         resp.set_header('Allow', 'GET, PATCH')
 
+    class Gate:
+        # another component failing BEFORE the responder stage, with an Allow header on the error
+        def process_request(self, req, resp):
+            if req.path == '/gate':
+                raise falcon.HTTPMethodNotAllowed(['GET', 'PUT'])
+
+        def process_resource(self, req, resp, resource, params):
+            if req.path == '/gate2':
+                raise falcon.HTTPMethodNotAllowed(['GET', 'PUT'])
+
+    class AGate:
+        async def process_request(self, req, resp):
+            if req.path == '/gate':
+                raise falcon.HTTPMethodNotAllowed(['GET', 'PUT'])
+
+        async def process_resource(self, req, resp, resource, params):
+            if req.path == '/gate2':
+                raise falcon.HTTPMethodNotAllowed(['GET', 'PUT'])
+
+    class Status:
+        # a raised HTTPStatus is an unsuccessful request even with a 2xx code
+        def on_options(self, req, resp):
+            raise falcon.HTTPStatus(falcon.HTTP_200, headers={'Allow': 'GET'})
+
+    class AStatus:
+        async def on_options(self, req, resp):
+            raise falcon.HTTPStatus(falcon.HTTP_200, headers={'Allow': 'GET'})
+
     def build(asgi, mw):
         App = falcon.asgi.App if asgi else falcon.App
-        app = App(middleware=mw)
+        app = App(middleware=[AGate() if asgi else Gate()] + mw)
+        app.add_route('/gate2', APlain() if asgi else Plain())
+        app.add_route('/status', AStatus() if asgi else Status())
         app.add_route('/plain', APlain() if asgi else Plain())
         app.add_route('/custom', ACustom() if asgi else Custom())
         app.add_route('/noallow', ANoAllow() if asgi else NoAllow())
@@ -230,7 +261,8 @@ def e2e(ctx, falcon, testing, model):
 
     cfgs = [('*', None, None), ('*', 'X-A', '*'), (['http://a', 'http://b'], ['X-A', 'X-B'], 'http://a'),
             ('http://a', None, ['http://b'])]
-    paths = ['/plain', '/custom', '/noallow', '/sink/x', '/sinkallow/x', '/missing']
+    paths = ['/plain', '/custom', '/noallow', '/sink/x', '/sinkallow/x', '/missing', '/gate', '/gate2', '/status']
+    raising = {('/gate', None), ('/gate2', None), ('/status', 'OPTIONS'), ('/missing', None), ('/plain', 'POST')}
     n = 0
     cases, meta = [], []
     for asgi in (False, True):
@@ -249,7 +281,7 @@ def e2e(ctx, falcon, testing, model):
                                 hd['Access-Control-Request-Method'] = acrm
                             r0 = base.simulate_request(method, path, headers=hd)
                             r1 = cl.simulate_request(method, path, headers=hd)
-                            succ = r0.status_code < 400
+                            succ = r0.status_code < 400 and (path, None) not in raising and (path, method) not in raising
                             pre = {k.lower(): v for k, v in r0.headers.items()}
                             post = {k.lower(): v for k, v in r1.headers.items()}
                             # content-length may legitimately differ only if bodies differ; they do not
@@ -275,3 +307,57 @@ def e2e(ctx, falcon, testing, model):
         elif post != exp or s0 != s1:
             ctx.violation('correspondence-broken', dict(detail, broken='C20.e2e_corr'), found_input=False, key='e2e-corr')
     ctx.sample({'e2e': {'path': meta[5][2], 'method': meta[5][3], 'origin': meta[5][4], 'post': meta[5][7]}})
+
+
+def wiring(ctx, falcon, model):
+    """cors_enable wiring of App.__init__/add_middleware: which calls raise ValueError."""
+    import falcon.asgi
+
+    class Other:
+        def process_request(self, req, resp):
+            pass
+
+    class AOther:
+        async def process_request(self, req, resp):
+            pass
+
+    def comp(is_cors, asgi):
+        return falcon.CORSMiddleware() if is_cors else (AOther() if asgi else Other())
+
+    rng = ctx.rng
+    cases, impl = [], []
+    for n in range(600 if ctx.tier == 'quick' else 6000):
+        asgi = rng.random() < 0.5
+        ce = rng.random() < 0.6
+        mw = [rng.random() < 0.3 for _ in range(rng.randint(0, 3))]
+        batches = [[rng.random() < 0.3 for _ in range(rng.randint(0, 3))] for _ in range(rng.randint(0, 4))]
+        App = falcon.asgi.App if asgi else falcon.App
+        try:
+            app = App(cors_enable=ce, middleware=[comp(b, asgi) for b in mw])
+        except ValueError:
+            r = [0]
+        else:
+            acc = []
+            for b in batches:
+                try:
+                    app.add_middleware([comp(x, asgi) for x in b])
+                    acc.append(1)
+                except ValueError:
+                    acc.append(0)
+            # behavioural count of policy instances: ACAO is set once whatever the count, so the
+            # count itself is read from the public-ish list of components (advisory only)
+            r = [1, acc]
+        impl.append(r)
+        cases.append([3, ce, mw, batches])
+    outs = model.run_many(cases)
+    for c, r, o in zip(cases, impl, outs):
+        ctx.note_case(('wiring', repr(c)), c[1] and (any(c[2]) or any(any(b) for b in c[3])))
+        ctx.count('wiring')
+        mo = [0] if o[0] == 0 else [1, o[2]]
+        if mo != r:
+            # a second policy instance accepted under cors_enable (or a legal stack refused)
+            ctx.violation('cors-wiring', {'cors_enable': c[1], 'middleware_is_cors': c[2], 'batches': c[3],
+                                          'impl_accepts': r, 'model_accepts': mo,
+                                          'what': 'App(cors_enable)/add_middleware accept/refuse pattern differs: '
+                                                  'cors_enable must keep exactly one CORSMiddleware instance'},
+                          key='wiring')
